@@ -201,11 +201,16 @@ inline void t0_put() {
 // the probe key (C02), exactly the old border (modified) and the new border (created) change version (C12), light
 // structural checks (C08); the two neighbours of the split point (ranks 7, 8) are symbolic, the rest concrete fillers.
 // PART selects which group of assertions this entry point carries (the groups are separate queries).
-template<unsigned MAP, unsigned SYMMASK, int PART>
+template<unsigned MAP, unsigned SYMMASK, int PART, int LINK = -1>
 inline void t1_put_split() {
     constexpr unsigned N = 15;
     bstate<N> st;
-    build_border<N>(st, true, MAP, -1, true, SYMMASK);
+    build_border<N>(st, true, MAP, LINK, true, SYMMASK);
+    bstate<1> sub;
+    if (LINK >= 0) { // entry LINK is a next-layer link (length class 9): the split point may fall right before / after it
+        build_border<1>(sub, true, 0);
+        attach_layer(st, (unsigned) LINK, sub.node);
+    }
     tree_instance ti;
     ti.store_root_ptr(st.node);
     session s;
@@ -283,6 +288,7 @@ YK_ENTRY(H_t0_put, (t0_put<false>()))
 YK_ENTRY(H_t0d_put, (t0_put<true>()))
 // symbolic entries: the two neighbours of the split point (ranks 7, 8); the rest concrete fillers
 YK_ENTRY(H_t1_split_struct, (t1_put_split<0, 0x0180, 0>()))
+YK_ENTRY(H_t1_split_struct_link, (t1_put_split<0, 0x0180, 0, 8>()))
 YK_ENTRY(H_t1_split_probe, (t1_put_split<0, 0x0180, 1>()))
 YK_ENTRY(H_t1_split_probe_scr, (t1_put_split<1, 0x0180, 1>()))
 
